@@ -31,7 +31,7 @@ const NVAL: usize = 128;
 const SHRINK_PER_CLASS: usize = 24;
 
 pub fn meta(rep: &mut Report) {
-    rep.rule = "Part A (histories): `new` summaries a b c (Bool symbols), x==y, x>y (atoms over 2-bit x y), x, y, x+y (2-bit); operations apply_bin_op(and|or on Boolean, add|sel on 2-bit [sel(p,q)=ite(p[0],p,q)], ugt 2-bit->Boolean), apply_ite(cond,tru,fals), coalesce, import_into_guard (Boolean only). Arguments of a step: the two most recent results or a `new` summary; a result may not leave that window unused; the last step must use every unused result; the interchangeable values {a,b,c}, {x==y,x>y}, {x,y,x+y} are used in first-use order (the subject treats values as opaque, so renamings have identical runs). Quick: every history of <= 3 operations plus every 4th operation that is coalesce/import_into_guard from a fresh GuardCtx, and every history of <= 3 operations from a non-initial GuardCtx (terminals c,b,a already registered in reverse order by expr_to_guard(xor(c, implies(b,a)))); thorough: the 3+unary space from both GuardCtx states, then every history of <= 4 operations plus every unary 5th from the fresh GuardCtx, sub-tree by sub-tree of the first operation under the budget (coverage.passes lists the completed sub-trees). A state = a history, rebuilt by replay in a fresh GuardCtx; a failing state is reported and not extended. In every state, for every valuation of a,b,c,x,y (2^7): exactly one entry guard is true (verif_eval), the selected value (eval_ref) equals the reference denotation, coalesce leaves no two entries with equal values. Part B (expr_to_guard): every Boolean term with <= 2 operators over {a,b,c,x==y,x>y,true,false} with not/and/or/xor/implies (decomposed) and eq/add/ite on Booleans (must become terminals), in a fresh and in a pre-populated GuardCtx: the guard evaluates as the term. states = distinct histories checked; transitions = operations applied to reach them (one per non-initial state); traces_validated_against_impl = histories replayed on the real object whose final state was compared with the reference (every prefix is a state of its own); distinct_nontrivial = distinct (guard truth table, value denotation) entry lists with >= 2 entries + distinct guard terms converted".into();
+    rep.rule = "Part A (histories): `new` summaries a b c (Bool symbols), x==y, x>y (atoms over 2-bit x y), x, y, x+y (2-bit), and the literals true (Boolean) and 2 (2-bit); operations apply_bin_op(and|or on Boolean, add|sel on 2-bit [sel(p,q)=ite(p[0],p,q)], ugt 2-bit->Boolean), apply_ite(cond,tru,fals), coalesce, import_into_guard (Boolean only). Arguments of a step: the two most recent results or a `new` summary; a result may not leave that window unused; the last step must use every unused result; the interchangeable values {a,b,c}, {x==y,x>y}, {x,y,x+y} are used in first-use order (the subject treats values as opaque, so renamings have identical runs). Quick: every history of <= 3 operations plus every 4th operation that is coalesce/import_into_guard from a fresh GuardCtx, and every history of <= 3 operations from a non-initial GuardCtx (terminals c,b,a already registered in reverse order by expr_to_guard(xor(c, implies(b,a)))); thorough: the 3+unary space from both GuardCtx states, then every history of <= 4 operations plus every unary 5th from the fresh GuardCtx, sub-tree by sub-tree of the first operation under the budget (coverage.passes lists the completed sub-trees). A state = a history, rebuilt by replay in a fresh GuardCtx; a failing state is reported and not extended. In every state, for every valuation of a,b,c,x,y (2^7): exactly one entry guard is true (verif_eval), the selected value (eval_ref) equals the reference denotation, coalesce leaves no two entries with equal values. Part B (expr_to_guard): every Boolean term with <= 2 operators over {a,b,c,x==y,x>y,true,false} with not/and/or/xor/implies (decomposed) and eq/add/ite on Booleans (must become terminals), in a fresh and in a pre-populated GuardCtx: the guard evaluates as the term. states = distinct histories checked; transitions = operations applied to reach them (one per non-initial state); traces_validated_against_impl = histories replayed on the real object whose final state was compared with the reference (every prefix is a state of its own); distinct_nontrivial = distinct (guard truth table, value denotation) entry lists with >= 2 entries + distinct guard terms converted".into();
     rep.assumptions = vec![
         "guards are observed only through GuardCtx::verif_eval; it depends on the valuation only through the registered terminals, so it is called once per distinct terminal valuation induced by the 128 concrete valuations".into(),
         "the reference denotation is plain integer arithmetic on the 128 valuations; leaf denotations are cross-checked against eval_ref at start".into(),
@@ -50,8 +50,19 @@ enum Ty {
 }
 
 /// name, type, symmetry class
-const NEWS: [(&str, Ty, u8); 8] =
-    [("a", Ty::B, 0), ("b", Ty::B, 0), ("c", Ty::B, 0), ("x==y", Ty::B, 1), ("x>y", Ty::B, 1), ("x", Ty::V, 2), ("y", Ty::V, 2), ("x+y", Ty::V, 2)];
+const NEWS: [(&str, Ty, u8); 10] = [
+    ("a", Ty::B, 0),
+    ("b", Ty::B, 0),
+    ("c", Ty::B, 0),
+    ("x==y", Ty::B, 1),
+    ("x>y", Ty::B, 1),
+    ("x", Ty::V, 2),
+    ("y", Ty::V, 2),
+    ("x+y", Ty::V, 2),
+    // literals: summaries whose value is a constant (fast paths keyed on literal true / false values)
+    ("true", Ty::B, 3),
+    ("2'd2", Ty::V, 4),
+];
 
 #[derive(Clone, Copy, PartialEq, Eq, Debug, Hash, PartialOrd, Ord)]
 enum Arg {
@@ -329,6 +340,8 @@ fn den_new(i: usize) -> Den {
             5 => x,
             6 => y,
             7 => (x + y) & 3,
+            8 => 1,
+            9 => 2,
             _ => unreachable!(),
         };
     }
@@ -374,7 +387,7 @@ struct Tv {
 #[derive(Clone)]
 struct World {
     ctx: Context,
-    leaves: [ExprRef; 8],
+    leaves: [ExprRef; 10],
     pre_term: ExprRef,
     envs: Arc<Vec<Env>>,
     tv: FxHashMap<ExprRef, Arc<Tv>>,
@@ -391,6 +404,8 @@ impl World {
         let e = ctx.equal(x, y);
         let g = ctx.greater(x, y);
         let p = ctx.add(x, y);
+        let tt = ctx.get_true();
+        let two = ctx.bit_vec_val(2, 2);
         let imp = ctx.implies(b, a);
         let pre_term = ctx.xor(c, imp);
         let mut envs = vec![];
@@ -404,9 +419,9 @@ impl World {
             env.insert(y, Val::B(Bv::from_u64(2, vy as u64)));
             envs.push(env);
         }
-        let mut w = World { ctx, leaves: [a, b, c, e, g, x, y, p], pre_term, envs: Arc::new(envs), tv: FxHashMap::default() };
+        let mut w = World { ctx, leaves: [a, b, c, e, g, x, y, p, tt, two], pre_term, envs: Arc::new(envs), tv: FxHashMap::default() };
         // machinery self-check: the hand-written leaf denotations agree with eval_ref on the leaves
-        for i in 0..8 {
+        for i in 0..10 {
             let t = w.tv(w.leaves[i]);
             let want_w = if NEWS[i].1 == Ty::B { 1 } else { 2 };
             if t.v != den_new(i) || t.w != want_w {
@@ -709,8 +724,8 @@ struct Alpha {
 }
 
 /// symmetry bookkeeping: how many members of each class have been used so far
-fn class_used(steps: &[Step]) -> [u8; 3] {
-    let mut u = [0u8; 3];
+fn class_used(steps: &[Step]) -> [u8; 5] {
+    let mut u = [0u8; 5];
     for s in steps {
         for a in s.args() {
             note_use(&mut u, a);
@@ -719,7 +734,7 @@ fn class_used(steps: &[Step]) -> [u8; 3] {
     u
 }
 
-fn note_use(u: &mut [u8; 3], a: Arg) {
+fn note_use(u: &mut [u8; 5], a: Arg) {
     if let Arg::New(i) = a {
         let cls = NEWS[i as usize].2 as usize;
         let first = NEWS.iter().position(|n| n.2 as usize == cls).unwrap();
@@ -735,7 +750,7 @@ struct Prefix {
     n: usize,
     tys: Vec<Ty>,
     used: Vec<bool>,
-    u0: [u8; 3],
+    u0: [u8; 5],
 }
 
 fn prefix_of(steps: &[Step]) -> Prefix {
